@@ -1,5 +1,8 @@
 pub mod c01;
 pub mod c02;
+pub mod c05;
+pub mod c10;
 pub mod c12;
 pub mod grammar_rules;
 pub mod lexer_rules;
+pub mod matrix;
